@@ -5,8 +5,11 @@
                                 where 2 remain, and a 1-byte buffer; each with a strict and with a
                                 garbage-returning read oracle).
    Theorems whose only hypotheses are wfbytes / agrees (instance only):
-             c06_iterate_exact (two oracles), c06_order, c06_elements_maximal, c06_complete (a buffer whose empty
-                                non-leading element cuts the report; tl written out), c06_report_bound.
+             c06_iterate_exact (two oracles), c06_order, c06_elements_maximal, c06_complete (a buffer with an empty
+                                non-leading element: it and the element behind it are reported),
+                                c06_report_bound.
+             c06_reports_all   (nonvacuous + instance: that same buffer on the C loop, two oracles; and the
+                                hypothesis elements <> [] separates).
    Skipped:  none. *)
 From Coq Require Import ZArith Lia List.
 From LW Require Import Base.Bytes Model.TagIter Spec.TagSpec Properties.Properties_C06.
@@ -37,9 +40,12 @@ Proof.
   rewrite (c06_iterate_exact buf3 (rd_env buf3 junk) wf_buf3 (agrees_env buf3 junk)).
   split; vm_compute; reflexivity.
 Qed.
-(* the cut buffer: the model stops at the empty element exactly as the spec says *)
-Example c06_iterate_exact_instance_cut :
-  iterate (rd_strict bufc) (zlen bufc) = Done (Ok [{| e_off := 0; e_num := 0; e_len := 1 |}]).
+(* the buffer with an empty element in the middle: the model goes on past it exactly as the spec says (F44) *)
+Definition ec1 : elem := {| e_off := 0; e_num := 0; e_len := 1 |}.
+Definition ec2 : elem := {| e_off := 3; e_num := 5; e_len := 0 |}.
+Definition ec3 : elem := {| e_off := 5; e_num := 3; e_len := 1 |}.
+Example c06_iterate_exact_instance_empty :
+  iterate (rd_strict bufc) (zlen bufc) = Done (Ok [ec1; ec2; ec3]).
 Proof.
   rewrite (c06_iterate_exact bufc (rd_strict bufc) wf_bufc (agrees_strict bufc)). vm_compute. reflexivity.
 Qed.
@@ -84,25 +90,44 @@ Proof.
 Qed.
 
 (* ---------- c06_complete ---------- *)
-(* the empty element 5 and everything behind it are withheld; tl starts with that empty element *)
-Example c06_complete_instance :
-  elements bufc = reported bufc ++ [{| e_off := 3; e_num := 5; e_len := 0 |}; {| e_off := 5; e_num := 3; e_len := 1 |}] /\
-  reported bufc = [{| e_off := 0; e_num := 0; e_len := 1 |}].
+(* the empty element 5 and the DS element behind it are reported: nothing of the chain is withheld *)
+Example c06_complete_instance : reported bufc = [ec1; ec2; ec3].
 Proof.
-  destruct (c06_complete bufc) as [tl [H D]].
-  assert (R : reported bufc = [{| e_off := 0; e_num := 0; e_len := 1 |}]) by (vm_compute; reflexivity).
-  split; [| exact R].
-  destruct D as [-> | [e [r [-> [He Hne]]]]].
-  - (* tl = [] is impossible here: elements has three entries, reported one *)
-    rewrite R in H. vm_compute in H. discriminate H.
-  - rewrite H, R. rewrite R in H. vm_compute in H. injection H as <- <-. reflexivity.
+  rewrite (c06_complete bufc). vm_compute. reflexivity.
 Qed.
-(* and a buffer where nothing is cut: tl = [] *)
-Example c06_complete_instance_full : elements buf3 = reported buf3 ++ [].
+(* and the buffer with the stray byte *)
+Example c06_complete_instance_full : reported buf3 = [e1; e2; e3].
+Proof. rewrite (c06_complete buf3). vm_compute. reflexivity. Qed.
+(* several empty elements in a row, the last one ending the buffer: all reported *)
+Example c06_complete_instance_empties :
+  reported [7; 0; 8; 0; 9; 0] =
+    [{| e_off := 0; e_num := 7; e_len := 0 |}; {| e_off := 2; e_num := 8; e_len := 0 |};
+     {| e_off := 4; e_num := 9; e_len := 0 |}].
+Proof. rewrite c06_complete. vm_compute. reflexivity. Qed.
+
+(* ---------- c06_reports_all ---------- *)
+Example c06_reports_all_nonvacuous :
+  wfbytes bufc /\ agrees (rd_strict bufc) bufc /\ agrees (rd_env bufc junk) bufc /\ elements bufc <> [].
 Proof.
-  destruct (c06_complete buf3) as [tl [H D]].
-  destruct D as [-> | [e [r [-> [He _]]]]]; [exact H |].
-  exfalso. vm_compute in H. discriminate H.
+  split; [exact wf_bufc |]. split; [apply agrees_strict |]. split; [apply agrees_env |].
+  vm_compute. discriminate.
+Qed.
+Example c06_reports_all_instance :
+  iterate (rd_strict bufc) 8 = Done (Ok [ec1; ec2; ec3]) /\
+  iterate (rd_env bufc junk) 8 = Done (Ok [ec1; ec2; ec3]).
+Proof.
+  destruct c06_reports_all_nonvacuous as [A [B [C D]]].
+  assert (E : elements bufc = [ec1; ec2; ec3]) by (vm_compute; reflexivity).
+  rewrite <- E. split.
+  - exact (c06_reports_all bufc (rd_strict bufc) A B D).
+  - exact (c06_reports_all bufc (rd_env bufc junk) A C D).
+Qed.
+(* the hypothesis separates: bufs has no fitting first element, and the loop refuses it instead *)
+Example c06_reports_all_hyp_separates :
+  elements bufs = [] /\ iterate (rd_strict bufs) (zlen bufs) <> Done (Ok (elements bufs)).
+Proof.
+  split; [vm_compute; reflexivity |].
+  rewrite (c06_iterate_exact bufs (rd_strict bufs) wf_bufs (agrees_strict bufs)). vm_compute. discriminate.
 Qed.
 
 (* ---------- c06_first_refused ---------- *)
@@ -143,6 +168,8 @@ Example c06_report_bound_instance : 2 * 3 <= 14.
 Proof.
   pose proof (c06_report_bound buf3 wf_buf3) as H. rewrite c06_sound_reported in H. exact H.
 Qed.
-(* the bound is attained by a single empty leading element (only a leading element may be empty) *)
+(* the bound is attained by empty elements only *)
 Example c06_report_bound_tight : 2 * zlen (reported [9; 0]) = zlen [9; 0].
+Proof. vm_compute. reflexivity. Qed.
+Example c06_report_bound_tight3 : 2 * zlen (reported [7; 0; 8; 0; 9; 0]) = zlen [7; 0; 8; 0; 9; 0].
 Proof. vm_compute. reflexivity. Qed.
